@@ -4,6 +4,10 @@ go 1.25.0
 
 require github.com/criyle/go-sandbox v0.0.0
 
-require golang.org/x/sys v0.43.0 // indirect
+require (
+	github.com/elastic/go-seccomp-bpf v1.6.0 // indirect
+	golang.org/x/net v0.53.0 // indirect
+	golang.org/x/sys v0.43.0
+)
 
 replace github.com/criyle/go-sandbox => /repo
